@@ -15,8 +15,11 @@ import (
 
 type addr struct{}
 
+//go:norace
 func (addr) Network() string { return "vnet" }
-func (addr) String() string  { return "vnet" }
+
+//go:norace
+func (addr) String() string { return "vnet" }
 
 var ErrReset = errors.New("vnet: connection reset by peer")
 var ErrWriteFault = errors.New("vnet: injected write error")
@@ -41,6 +44,8 @@ type End struct {
 }
 
 // Pair returns two connected ends.
+//
+//go:norace
 func Pair(a, b string) (*End, *End) {
 	x := &End{Name: a, FailWriteAt: -1}
 	y := &End{Name: b, FailWriteAt: -1}
@@ -48,6 +53,7 @@ func Pair(a, b string) (*End, *End) {
 	return x, y
 }
 
+//go:norace
 func (e *End) Read(b []byte) (int, error) {
 	if !vsched.Active() {
 		return 0, net.ErrClosed
@@ -80,6 +86,7 @@ func (e *End) Read(b []byte) (int, error) {
 	return 0, io.EOF
 }
 
+//go:norace
 func (e *End) Write(b []byte) (int, error) {
 	if !vsched.Active() {
 		return 0, net.ErrClosed
@@ -106,8 +113,10 @@ func (e *End) Write(b []byte) (int, error) {
 	return len(b), nil
 }
 
+//go:norace
 func (e *End) eofSent() bool { return false }
 
+//go:norace
 func (e *End) Close() error {
 	if e.closed {
 		return net.ErrClosed
@@ -120,6 +129,8 @@ func (e *End) Close() error {
 // ---- harness-side fault injection (call from a controlled thread) ----
 
 // Deliver queues one segment for this end's reader.
+//
+//go:norace
 func (e *End) Deliver(b []byte) {
 	if len(b) > 0 {
 		e.in = append(e.in, append([]byte{}, b...))
@@ -127,19 +138,30 @@ func (e *End) Deliver(b []byte) {
 }
 
 // InjectEOF: the reader sees a clean EOF after the queued segments.
+//
+//go:norace
 func (e *End) InjectEOF() { e.eof = true }
 
 // InjectReadError: the reader sees an error after the queued segments.
+//
+//go:norace
 func (e *End) InjectReadError(err error) { e.rerr = err }
 
 // FireReadTimeout makes the pending/next Read fail with os.ErrDeadlineExceeded (only meaningful
 // if the code under test armed a read deadline; see ReadDeadlineArmed).
+//
+//go:norace
 func (e *End) FireReadTimeout() { e.timeout = true }
 
+//go:norace
 func (e *End) Closed() bool { return e.closed }
 
 // Waiting reports whether a reader is parked in Read.
+//
+//go:norace
 func (e *End) Waiting() bool { return e.waiting }
+
+//go:norace
 func (e *End) Pending() int {
 	n := 0
 	for _, s := range e.in {
@@ -148,19 +170,30 @@ func (e *End) Pending() int {
 	return n
 }
 
-func (e *End) LocalAddr() net.Addr  { return addr{} }
+//go:norace
+func (e *End) LocalAddr() net.Addr { return addr{} }
+
+//go:norace
 func (e *End) RemoteAddr() net.Addr { return addr{} }
+
+//go:norace
 func (e *End) SetDeadline(t time.Time) error {
 	e.ReadDeadlineArmed = !t.IsZero()
 	return nil
 }
+
+//go:norace
 func (e *End) SetReadDeadline(t time.Time) error {
 	e.ReadDeadlineArmed = !t.IsZero()
 	return nil
 }
+
+//go:norace
 func (e *End) SetWriteDeadline(t time.Time) error { return nil }
 
 // Peer returns the other end.
+//
+//go:norace
 func (e *End) Peer() *End { return e.peer }
 
 // Listener is a net.Listener whose Accept is a visible wait under the scheduler.
@@ -169,6 +202,7 @@ type Listener struct {
 	closed bool
 }
 
+//go:norace
 func (l *Listener) Accept() (net.Conn, error) {
 	if !vsched.Active() {
 		return nil, net.ErrClosed
@@ -182,10 +216,15 @@ func (l *Listener) Accept() (net.Conn, error) {
 	return nil, net.ErrClosed
 }
 
-func (l *Listener) Close() error   { l.closed = true; return nil }
+//go:norace
+func (l *Listener) Close() error { l.closed = true; return nil }
+
+//go:norace
 func (l *Listener) Addr() net.Addr { return addr{} }
 
 // Dial creates a connection pair, hands the server end to Accept and returns the client end.
+//
+//go:norace
 func (l *Listener) Dial(name string) *End {
 	c, s := Pair(name+"-client", name+"-server")
 	l.q = append(l.q, s)
